@@ -229,6 +229,7 @@ type NondetRec struct {
 type State struct {
 	heap    map[int]Value
 	nextObj int
+	objCtr  *int
 	threads []*Thread
 	cur     int
 	pc      []*Term
@@ -285,8 +286,16 @@ func (p *Program) loadObj(s *State, obj int) Value {
 	panic(fmt.Sprintf("dangling object %d", obj))
 }
 
+// alloc: object ids come from a counter shared by all states of a task, so that two
+// forked states never reuse an id for different allocations (which would make their
+// heaps unmergeable).
 func (s *State) alloc(v Value) int {
-	s.nextObj++
+	if s.objCtr != nil {
+		*s.objCtr++
+		s.nextObj = *s.objCtr
+	} else {
+		s.nextObj++
+	}
 	s.heap[s.nextObj] = v
 	return s.nextObj
 }
